@@ -8,8 +8,9 @@ from ..common import Violation, drive, seed
 PID = 'C18'
 RULE = ('Hypothesis: datasets (list- or dict-backed, n 0..8, optionally below a map / slice / concatenate stage) with '
         'dict payloads (incomparable), sort values with heavy ties, reverse on/off, sort_fn in {sorted, a wrapper, '
-        'functools.partial(sorted), sorted-on-reversed-input}, key-less sort of dict-backed data; groupby with '
-        'arbitrary hashable group ids (ints, strings, tuples, None, frozensets, mixed). Oracle: the result is a '
+        'functools.partial(sorted), sorted-on-reversed-input, an inverting order}, reverse given as bool / int / numpy '
+        'bool, key-less sort of dict-backed data; groupby with '
+        'arbitrary hashable group ids (ints, strings, tuples, None, frozensets, NaN, mixed). Oracle: the result is a '
         'permutation (by example id), sort keys monotone in the requested direction, no exception from comparing '
         'payloads, keys()/items() keep each example under its own key, key-less sort orders by key (reverse '
         'honoured); groups partition the dataset, each example in the group its id names, relative order kept. '
@@ -26,7 +27,12 @@ def plan(tier):
     return {'shards': 4 if tier == 'quick' else 16}
 
 
-GIDS = [0, 1, 2, 'a', 'b', ('t', 1), ('t', 2), None, frozenset([1]), frozenset([1, 2]), frozenset([3]), -1, 'A', True]
+GIDS = [0, 1, 2, 'a', 'b', ('t', 1), ('t', 2), None, frozenset([1]), frozenset([1, 2]), frozenset([3]), -1, 'A', True,
+        float('nan')]  # NaN: an id that is not equal to itself (a missing label); its examples still belong somewhere
+
+
+def is_nan(x):
+    return isinstance(x, float) and x != x
 
 
 BIG = [2 ** 53 + 1, 2 ** 53 + 2, 2 ** 53 + 3, 1.5, 2 ** 60, -2.5, 2 ** 53, 7]
@@ -48,6 +54,9 @@ def sort_fns(name):
         return functools.partial(sorted)
     if name == 'rev_input':
         return lambda it, reverse=False: sorted(list(it)[::-1], reverse=reverse)
+    if name == 'inverting':
+        # the caller's own ordering (largest first): the supplied function decides the order, not the builtin
+        return lambda it, reverse=False: sorted(list(it), reverse=not reverse)
     raise ValueError(name)
 
 
@@ -86,11 +95,13 @@ def check(case):
         if f is not None:
             kw['sort_fn'] = f
         rev = case['reverse']
+        # the flag as callers produce it: a bool, an int, or a numpy bool from a comparison
+        rev_arg = {'bool': bool, 'int': int, 'np': __import__('numpy').bool_}[case.get('reverse_as', 'bool')](rev)
         try:
             if case['keyless']:
-                out = ds.sort(reverse=rev, **kw)
+                out = ds.sort(reverse=rev_arg, **kw)
             else:
-                out = ds.sort(lambda e: e['v'], reverse=rev, **kw)
+                out = ds.sort(lambda e: e['v'], reverse=rev_arg, **kw)
             got = list(out)
         except Exception as e:
             raise Violation('sort-raised', f'{desc}\n{type(e).__name__}: {e}')
@@ -99,6 +110,8 @@ def check(case):
             raise Violation('sort-not-a-permutation', f'{desc}\nresult ids {gids}')
         if len(out) != n:
             raise Violation('sort-len', f'{desc}\nlen {len(out)}')
+        if case['sort_fn'] == 'inverting':
+            rev = not rev  # expected direction under the supplied ordering
         if case['keyless']:
             ks = [e['key'] for e in got]
             want_ks = natural(ks, reverse=rev) if case['sort_fn'] == 'natural' else sorted(ks, reverse=rev)
@@ -128,7 +141,7 @@ def check(case):
                     raise Violation('repeated-sort-wrong', f'{desc}\nafter the sort above, sort by (id*{mult}+1)%5 gave '
                                                            f'ids {[e["id"] for e in again]} with keys {vs2}')
         ties = len(set(case['sortvals'][:n])) < n
-        return (n >= 3 and ties) or rev or case['keyless']
+        return (n >= 3 and ties) or case['reverse'] or case['keyless']
     # groupby
     gid = case['gids']
     try:
@@ -137,11 +150,22 @@ def check(case):
     except Exception as e:
         raise Violation('groupby-raised', f'{desc}\n{type(e).__name__}: {e}')
     want = {}
+    nan_ids = []
     for i in ids:
-        want.setdefault(GIDS[gid[i]], []).append(i)
-    got = {k: [e['id'] for e in v] for k, v in lists.items()}
+        if is_nan(GIDS[gid[i]]):
+            nan_ids.append(i)
+        else:
+            want.setdefault(GIDS[gid[i]], []).append(i)
+    got = {k: [e['id'] for e in v] for k, v in lists.items() if not is_nan(k)}
     if got != want:
         raise Violation('groups-wrong', f'{desc}\ngroups {got}\nexpected {want}')
+    # an id that is not equal to itself names no single group; its examples must still each lie in exactly one group
+    # (under such an id), in their relative order
+    got_nan = [[e['id'] for e in v] for k, v in lists.items() if is_nan(k)]
+    flat = sorted(i for g in got_nan for i in g)
+    if flat != nan_ids or any(g != sorted(g) for g in got_nan):
+        raise Violation('groups-not-a-partition', f'{desc}\nexamples with a NaN group id: {nan_ids}; groups under '
+                                                  f'a NaN id: {got_nan}')
     if case['src'] == 'dict':
         for k, g in groups.items():
             for kk, e in g.items():
@@ -166,7 +190,8 @@ def st_case(draw):
     case['op'] = draw(st.sampled_from(['sort', 'sort', 'groupby']))
     if case['op'] == 'sort':
         case['reverse'] = draw(st.booleans())
-        case['sort_fn'] = draw(st.sampled_from(['sorted', 'sorted', 'wrapper', 'partial', 'rev_input']))
+        case['sort_fn'] = draw(st.sampled_from(['sorted', 'sorted', 'wrapper', 'partial', 'rev_input', 'inverting']))
+        case['reverse_as'] = draw(st.sampled_from(['bool', 'bool', 'int', 'np']))
         case['keyless'] = src == 'dict' and draw(st.booleans())
         if case['keyless'] and draw(st.booleans()):
             case['sort_fn'] = 'natural'
